@@ -120,6 +120,16 @@ def _types(tree, kind):
 
 def e01_redefined_type(tree, pts, ins, pick):
     decls = _types(tree, "enum") + _types(tree, "struct")
+    if pick([0, 1, 2, 3]) == 0:
+        # a declaration that takes the name of a built-in type of the format
+        nm = pick(list(spec.BASIC))
+        target = pick([""] + list(spec.DIRS))
+        if pick([0, 1]):
+            decl = {"kind": "struct", "name": nm, "body": [{"tag": "field", "name": "a", "type": "short"}]}
+        else:
+            decl = {"kind": "enum", "name": nm, "type": "short", "values": [{"name": "A", "ord": 1}]}
+        tree["files"].setdefault(target, []).insert(0 if pick([0, 1]) else len(tree["files"].get(target, [])), decl)
+        return "builtin_name"
     d, x = pick(decls)
     target = pick(list(spec.DIRS))
     tree["files"][target].append({"kind": "struct", "name": x["name"],
@@ -395,6 +405,13 @@ def e11_bad_hardcoded(tree, pts, ins, pick):
         p.lst.insert(p.idx, {"tag": "field", "name": nm, "type": pick(vis), "value": "1"})
     elif mode == "blob":
         p.lst.insert(p.idx, {"tag": "field", "name": nm, "type": "blob", "value": "abc"})
+    elif pick([0, 1, 2]) == 0:
+        # the length counts characters as written: a base letter and a combining mark are two of them,
+        # the Angstrom sign is not the letter it normalises to
+        txt, ln = pick([("cafe\u0301", "4"), ("e\u0301", "1"), ("A\u030a", "1"), ("\u1e9b\u0323x", "2")])
+        p.lst.insert(p.idx, {"tag": "field", "name": pick([None, nm]), "type": pick(["string", "encoded_string"]),
+                             "length": ln, "value": txt})
+        mode = "wrong_len_combining"
     elif pick([True, False]):
         # a literal shorter than the declared length is just as wrong - padded or not
         p.lst.insert(p.idx, {"tag": "field", "name": pick([None, nm]), "type": pick(["string", "encoded_string"]),
